@@ -96,7 +96,7 @@ PROPS = {
         ],
     ),
     'C16': dict(
-        verus=['pmtiles_dir', 'pmtiles_dir_dec', 'varint_pbf', 'pmtiles_reader', 'versatiles_reader', 'tile_index', 'block_index', 'block_index_pyramid', 'mbtiles_pyramid'],
+        verus=['pmtiles_dir', 'pmtiles_dir_dec', 'varint_pbf', 'pmtiles_reader', 'versatiles_reader', 'versatiles_stream', 'tile_index', 'block_index', 'block_index_pyramid', 'mbtiles_pyramid'],
         kani=['pmtiles_codec', 'versatiles_codec', 'pmtiles_runs'],
         not_decided=[
             'MBTiles zoom gaps (SQL), ./-prefixed tar members (string code)',
